@@ -14,7 +14,7 @@
      32  residues of the substitution method differ from the model
      64  a sqrt witness handed to the damped-sin formulas is wrong (harness error)
    [case_rt_sound]: bit 4 clear  ==>  L(Lcapy's output) = the input, proved. *)
-Require Import LT.FieldSec LT.PolyQ LT.QcI LT.ExpPoly LT.ILT.
+Require Import LT.FieldSec LT.PolyQ LT.QcI LT.ExpPoly LT.ILT LT.ILTResidue.
 Local Open Scope F_scope.
 Add Field KIfield : (fth QcIF).
 
@@ -128,31 +128,36 @@ Definition case_code (B : branches KI) (guard : bool -> nat -> nat -> bool)
 Definition predicts_error B guard (kw : list (aflag * bool)) (const : KI) (F : list (cterm KI)) : bool :=
   match model_eval B guard (eff_causal (Some Aunknown) kw) const F [] with None => true | Some _ => false end.
 
-(* ---- Ratfun._find_residues_sub ---------------------------------------------------------------
-   entries: for each pole (index k, value p, multiplicity n): orders n, n-1, .., 1.
-   top order: expr = B / Π_{j<>i, sel} (x - p_j), r = expr(p);
-   lower orders: expr = expr', r = expr(p) / (M - O)!                                         *)
-Definition rentry := (nat * KI * nat * nat)%type.          (* (pole index, p, O, M) *)
-Fixpoint pole_entries (k : nat) (poles : list (KI * nat)) : list rentry :=
-  match poles with [] => []
-  | (p, n) :: r => map (fun m => (k, p, (n - m)%nat, n)) (seq 0 n) ++ pole_entries (S k) r end.
-Definition rdiff (f : list KI * list KI) : list KI * list KI :=
-  (psub (pmul (pderiv (K:=KI) (fst f)) (snd f)) (pmul (fst f) (pderiv (K:=KI) (snd f))), pmul (snd f) (snd f)).
-Definition cover_denom (sel : bool -> nat -> nat -> bool) (i : nat) (ei : rentry) (es : list rentry) : list KI :=
-  fold_right (fun je acc => match je, ei with (jdx, (kj, pj, oj, _)), (ki, _, oi, _) =>
-      if Nat.eqb jdx i then acc else if sel (Nat.eqb ki kj) oi oj then pmul (plin pj) acc else acc end)
-    [(1 : KI)] (combine (seq 0 (length es)) es).
-Fixpoint residues_go (sel : bool -> nat -> nat -> bool) (Bn : list KI) (all : list rentry) (i : nat) (es : list rentry)
-    (expr : list KI * list KI) : list KI :=
-  match es with [] => []
-  | e :: es' => match e with (k, p, o, M) =>
-      let expr' := if Nat.eqb M o then (Bn, cover_denom sel i e all) else rdiff expr in
-      (if Nat.eqb M o then rat_eval expr' p else rat_eval expr' p / fnat (K:=KI) (natfact (M - o))) :: residues_go sel Bn all (S i) es' expr' end
-  end.
-Definition residues_sub (sel : bool -> nat -> nat -> bool) (poles : list (KI * nat)) (Bn : list KI) : list KI :=
-  let es := pole_entries O poles in residues_go sel Bn es O es ([], [(1 : KI)]).
+(* ---- Ratfun._find_residues_sub: model of ILTResidue.v against Lcapy's R, P, O -------------- *)
 Fixpoint qlist_eqb (l m : list KI) : bool :=
   match l, m with [], [] => true | a :: l', b :: m' => qci_eqb a b && qlist_eqb l' m' | _, _ => false end.
+Fixpoint nlist_eqb (l m : list nat) : bool :=
+  match l, m with [], [] => true | a :: l', b :: m' => Nat.eqb a b && nlist_eqb l' m' | _, _ => false end.
+Definition residues_chk (sel : bool -> nat -> nat -> bool) (poles : list (KI * nat)) (Bn : list KI)
+    (R P : list KI) (Os : list nat) : bool :=
+  let es := pole_entries (K:=KI) 0%nat poles in
+  qlist_eqb (residues_sub (K:=KI) sel poles Bn) R &&
+  qlist_eqb (map (fun e => match e with (_, p, _, _) => p end) es) P &&
+  nlist_eqb (map (fun e => match e with (_, _, o, _) => o end) es) Os.
+
+(* products with an undefined transform: classification of Lcapy's result *)
+Definition utime_eqb (a b : utime) : bool :=
+  match a, b with
+  | UDeriv n i, UDeriv m k => Nat.eqb n m && Bool.eqb i k
+  | UInt, UInt => true
+  | UConv c, UConv d => Bool.eqb c d
+  | UFunc, UFunc => true
+  | _, _ => false
+  end.
+Definition undef_chk (kw : list (aflag * bool)) (zic : bool) (f : ufac) (observed : utime) : bool :=
+  utime_eqb (undef_model (eff_causal (Some Aunknown) kw) zic f) observed.
+
+(* typed constructors for the generated case files *)
+Definition mkterm (c : KI) (T : Qc) (C : list KI) (ts : list (KI * KI * nat)) (Bp Ap : list KI) : cterm KI :=
+  CTerm (ITerm c T C ts) Bp Ap.
+Definition zero_sig : sig KI := szero.
+Definition jI : KI := cii.
+Definition someq (x : KI) : option KI := Some x.
 
 Definition failing (l : list (nat * nat)) : list nat :=
   map (fun p => (fst p * 256 + snd p)%nat) (filter (fun p => negb (Nat.eqb (snd p) 0)) l).
